@@ -128,7 +128,10 @@ def generate(rng, tier):
                             "total": rng.choice([1, 2, 3, 4, 6]),
                             "tp": rng.choice([None, 0.5, 1, 2])})
             actors.append({"name": "o%d" % i, "ops": ops})
-    return {"property": ID, "scenario": {"resources": resources, "actors": actors},
+    scenario = {"resources": resources, "actors": actors}
+    if rng.random() < 0.1:
+        scenario["reuse_objects"] = True      # the program runs twice around the same Pipe objects
+    return {"property": ID, "scenario": scenario,
             "plan": plan, "config": {"waitq": rng.choice(["heap", "sd"])}}
 
 
@@ -185,6 +188,32 @@ def fluid(throughput, jobs):
                 remaining[job] = Fraction(0)
         now = nxt
     return done
+
+
+
+def run_case(case):
+    """One run - or, for `repeat` cases, two runs of the same program (same faults) around the same
+    Pipe objects: a replication must find them as idle as the first run did."""
+    import sys
+    from ..runner import run_one
+    from ..world import SHARED_CONDITIONS
+    P = sys.modules[__name__]
+    if not case["scenario"].get("reuse_objects"):
+        return run_one(P, case)
+    SHARED_CONDITIONS.clear()
+    try:
+        first = run_one(P, case)
+        if first.violations:
+            return first
+        second = run_one(P, case)
+        for violation in second.violations:
+            violation["msg"] = "second run around the same objects: " + violation["msg"]
+        second.ticks += first.ticks
+        second.stats = dict(second.stats or {})
+        second.stats["probe.second-runs-with-reused-objects"] = 1
+        return second
+    finally:
+        SHARED_CONDITIONS.clear()
 
 
 def check(rec):
